@@ -48,9 +48,10 @@ A64Addr(s, base, off) ==
            ELSE <<"heap", HeapKey(b.b, o \div 8)>>
      ELSE IF b.t = "stk" THEN
         LET o == b.o + off
-        IN IF base # "SP" THEN <<"bad", "mem", "stack access through a register other than SP">>
-           ELSE IF (b.o % 16) # 0 THEN <<"bad", "align", "SP not 16-byte aligned at a stack access">>
-           ELSE IF o < 0 /\ ((-o) % 8) = 0 /\ off >= 0 THEN <<"stk", o>>
+        \* any register may hold a stack address (frame pointer); the alignment rule is the architecture's rule for SP as base
+        IN IF A64Get(s, "SP").t # "stk" THEN <<"bad", "mem", "stack access with a corrupt stack pointer">>
+           ELSE IF base = "SP" /\ (b.o % 16) # 0 THEN <<"bad", "align", "SP not 16-byte aligned at a stack access">>
+           ELSE IF o < 0 /\ ((-o) % 8) = 0 /\ o >= A64Get(s, "SP").o THEN <<"stk", o>>
            ELSE <<"bad", "mem", "stack access outside the routine's own frame">>
      ELSE IF IsJunk(b) THEN <<"bad", "undef", "memory access through an undefined register">>
      ELSE <<"bad", "mem", "memory base is not a pointer (" \o b.t \o ")">>
@@ -125,8 +126,11 @@ A64Step(P, s) ==
   ELSE IF s.strict /\ A64Unencodable(i) # "" THEN AFailS(s, "encode", "unencodable instruction: " \o A64Unencodable(i))
   ELSE IF op \in {"ADD", "SUB", "MUL", "SDIV"} THEN
      LET x == A64Get(s, i.a[2].r)
-         y == IF i.a[3].k = "imm" THEN IntV(i.a[3].w) ELSE A64Get(s, i.a[3].r)
-     IN IF IsJunk(x) \/ IsJunk(y) THEN AFailS(s, "undef", op \o " on an undefined value")
+         y0 == IF i.a[3].k = "imm" THEN IntV(i.a[3].w) ELSE A64Get(s, i.a[3].r)
+         \* shifted-register form `ADD Xd, Xn, Xm, LSL k`
+         y == IF Len(i.a) >= 4 /\ i.a[4].k = "lsl" /\ y0.t = "int" THEN IntV(Shl(y0.w, i.a[4].n)) ELSE y0
+     IN IF Len(i.a) >= 4 /\ (i.a[4].k # "lsl" \/ (y0.t # "int" /\ ~IsJunk(y0))) THEN AFailS(s, "value", op \o " with a shifted operand that is no integer")
+        ELSE IF IsJunk(x) \/ IsJunk(y) THEN AFailS(s, "undef", op \o " on an undefined value")
         ELSE IF op = "SDIV" THEN
              (IF x.t # "int" \/ y.t # "int" THEN AFailS(s, "value", "SDIV on non-integer")
               ELSE IF ~DivDefined(x.w, y.w) THEN [s EXCEPT !.status = "source-undefined"]
